@@ -599,3 +599,6 @@ mod tests {
         Ok(())
     }
 }
+
+#[cfg(feature = "verif-hooks")]
+pub mod verif_c14;
